@@ -32,7 +32,7 @@ var jsonOps = []string{"AND", "OR", "EQUALS", "LIKE", "NOT", "RANGE", "MUST", "M
 var jsonExtras = []string{``, `"distance":2`, `"distance":"x"`, `"distance":-1`, `"power":2.5`, `"power":"x"`, `"power":-1`, `"extra":1`, `"boundaries":{"min":1,"max":2}`}
 
 func jsonBoundaries() []string {
-	vals := []string{"\x00missing", `1`, `"a"`, `"*"`, `""`, `1.5`, `null`, `{"left":"a","operator":"NOT"}`, `[1]`, `"it's"`, `["it's","b"]`}
+	vals := []string{"\x00missing", `1`, `"a"`, `"*"`, `""`, `1.5`, `null`, `{"left":"a","operator":"NOT"}`, `[1]`, `"it's"`, `["it's","b"]`, `{"min":1}`, `{"min":1,"max":2}`}
 	var out []string
 	for _, mn := range vals {
 		for _, mx := range vals {
@@ -266,11 +266,15 @@ var c13Wrappers = [][2]string{
 	{`{"left":"a","operator":"AND","right":%s}`, `{"left":"a","operator":"AND","right":%s}`},
 	{`{"left":%s,"operator":"OR","right":"b"}`, `{"left":%s,"operator":"OR","right":"b"}`},
 	{`{"left":%s,"operator":"MUST"}`, `{"left":{"left":"a","operator":"EQUALS","right":"b"},"operator":"AND","right":%s}`},
+	// positions a validator may take for granted: an element of a value list, a range bound, an array
+	{`{"left":"a","operator":"IN","right":{"left":["x",%s],"operator":"LIST"}}`, `{"left":%s,"operator":"NOT"}`},
+	{`{"left":"a","operator":"RANGE","right":{"min":%s,"max":1,"inclusive":true}}`, `{"left":%s,"operator":"NOT"}`},
+	{`{"left":[%s],"operator":"LIST"}`, `{"left":"a","operator":"IN","right":%s}`},
 }
 
 // depths just beyond the exhaustive depth 2, around powers of two, and one far beyond any
 // plausible recursion guard
-var c13Depths = []int{2, 3, 4, 7, 16, 33, 64, 129, 257, 1025}
+var c13Depths = []int{1, 2, 3, 4, 7, 16, 33, 64, 129, 257, 1025}
 
 func nestDoc(core string, wr [2]string, n int) string {
 	// built inside-out without Sprintf re-scanning the growing document
@@ -438,8 +442,8 @@ func init() {
 		},
 		Eval:   c13Eval,
 		Shrink: c13Shrink,
-		Rule: "BYTES over a JSON alphabet (punctuation, letters, digits and the schema's key words as single symbols) to length L; JSON(1): every document {left,operator,right,+extras} over 29 leaf values (27 + absent, both sides) x 22 operator names x (values ∪ 363 boundary objects); " +
-			"DEEP: every depth-1 document that fails Validate and would make an operation panic, buried under 2..1025 levels of four wrappers; JSON(2): one child is every representative of a decoded shape signature (operator, dynamic types, string classes, render outcome; recomputed from the implementation on every run), the other every plain value and every coarse-signature representative; non-trivial = decodes and validates; distinct = distinct shape signatures of validated documents",
+		Rule: "BYTES over a JSON alphabet (punctuation, letters, digits and the schema's key words as single symbols) to length L; JSON(1): every document {left,operator,right,+extras} over 29 leaf values (27 + absent, both sides) x 22 operator names x (values ∪ 507 boundary objects); " +
+			"DEEP: every depth-1 document that fails Validate and would make an operation panic, buried under 1..1025 levels of seven wrappers (unary, binary left/right, list element, range bound, array); JSON(2): one child is every representative of a decoded shape signature (operator, dynamic types, string classes, render outcome; recomputed from the implementation on every run), the other every plain value and every coarse-signature representative; non-trivial = decodes and validates; distinct = distinct shape signatures of validated documents",
 		Assumptions: []string{"depth-2 children are abstracted to shape signatures (operator, dynamic types, string classes the code branches on); depth 1 is exhaustive without abstraction"},
 		Bounds: func(tier string) map[string]any {
 			all, ok := c13Reps()
